@@ -98,7 +98,7 @@ def random_spec(rng, date_only_ok=True):
             else rng.choice(['h', 'hm', 'hms', 'frac', 'frac']),
             'text': rng.random() < .6, 'nfrac': rng.randint(1, 9), 'fsep': rng.choice('.,'),
             'tail': '%03d' % rng.randint(0, 999),
-            'sep': rng.choice(['T', 'T', 'T', ' ', 't', '_', '/', 'x', '-', ':', '@']),
+            'sep': rng.choice(['T', 'T', 'T', ' ', 't', '_', '/', 'x', '-', ':', '@', '\n', '\r', '\t', 'Z', '+']),
             'h24': rng.random() < .15, 'off': None}
     r = rng.random()
     if r < .15:
